@@ -21,6 +21,14 @@ Definition implied_class (r : raw) : string :=
 Lemma class_implied (r : raw) : class_of_raw r = Some (implied_class r).
 Proof. unfold class_of_raw, dim_raw, implied_class. destruct (rC r), (rF r), (rE r); reflexivity. Qed.
 
+(* the class of the object load() returns (after prepare) is the implied one whenever the edges read are valid *)
+Lemma class_loaded (r : raw) :
+  (forall e, In e (rE r) -> edge_valid (zlen (rV r)) e = true) -> class_of_loaded r = Some (implied_class r).
+Proof.
+  intros H. rewrite <- class_implied. unfold class_of_loaded, class_of_raw, dim_raw. f_equal. f_equal.
+  destruct (rE r) as [|e E]; [reflexivity|]. cbn [existsb isnil]. rewrite (H e (or_introl eq_refl)). reflexivity.
+Qed.
+
 Lemma filter_len_or a b (els : list (list Z)) :
   Forall (fun e => zlen e = a \/ zlen e = b) (filter (len_is a) els ++ filter (len_is b) els).
 Proof.
